@@ -50,7 +50,14 @@ theorem processOp_alive {lim : Limits} {w w' : WState} {t : OpType} {pred : Opti
       | error e => simp [hs, bind, Except.bind] at h
       | ok s => simp [hs, bind, Except.bind] at h; cases h; rfl
     · cases h; rfl
-    · cases h; exact tryRunDump_alive w
+    · -- tryDump: started, or deferred
+      have hb := tryRunDump_alive w
+      revert h hb
+      generalize tryRunDump w = r2
+      obtain ⟨w2, st⟩ := r2
+      intro h hb
+      simp only at h hb
+      split at h <;> cases h <;> simp [deferDump, hb]
     · -- tryUpdate
       have ha := tryUpdateActive_alive lim w
       revert h ha
@@ -110,7 +117,13 @@ theorem processOp_error_arms {lim : Limits} {w : WState} {t : OpType} {pred : Op
       | error e' => simp [hs, bind, Except.bind] at h; subst h; exact Or.inr (Or.inr ⟨rfl, rfl⟩)
       | ok s => simp [hs, bind, Except.bind] at h
     · cases h
-    · cases h
+    · -- tryDump never fails
+      revert h
+      generalize tryRunDump w = r2
+      obtain ⟨w2, st⟩ := r2
+      intro h
+      simp only at h
+      split at h <;> cases h
     · -- tryUpdate never fails
       revert h
       generalize tryUpdateActive lim w = r
